@@ -38,6 +38,7 @@ type Op struct {
 	Size    int      `json:"size,omitempty"`
 	Bytes   int      `json:"bytes,omitempty"`
 	Burst   []int    `json:"burst,omitempty"`   // payload sizes of a pipelined burst (>= 8 each)
+	Same    bool     `json:"same,omitempty"`    // pub: the payload of the previous publish on this topic again (only QoS and flags differ)
 	Dup     bool     `json:"dup,omitempty"`     // pub (QoS > 0): the PUBLISH carries DUP=1 (a retransmission whose first copy was lost)
 	EOFData bool     `json:"eofdata,omitempty"` // connect: transport may return last bytes together with EOF
 }
@@ -108,22 +109,23 @@ func (s *inprocSub) take() []delivery {
 }
 
 type exec struct {
-	p       Plan
-	b       *fix.Broker
-	spec    *model
-	vari    *model
-	conns   []*fix.Conn
-	cps     map[int][]byte // the CONNECT each live connection was opened with
-	inproc  []*inprocSub
-	msgno   int
-	pid     uint16
-	disc    []Discrepancy
-	known   func(sig string) bool
-	hits    map[string]int
-	cls     map[string]bool
-	abort   bool
-	opIndex int
-	inconcl string
+	p           Plan
+	b           *fix.Broker
+	spec        *model
+	vari        *model
+	conns       []*fix.Conn
+	cps         map[int][]byte // the CONNECT each live connection was opened with
+	lastPayload map[string][]byte
+	inproc      []*inprocSub
+	msgno       int
+	pid         uint16
+	disc        []Discrepancy
+	known       func(sig string) bool
+	hits        map[string]int
+	cls         map[string]bool
+	abort       bool
+	opIndex     int
+	inconcl     string
 }
 
 func (e *exec) class(c string) { e.cls[c] = true }
@@ -586,6 +588,12 @@ func (e *exec) doEnd(ci int, how string) {
 		close(release)
 		fix.SetYield(nil)
 		how = "disconnect-close"
+	case "bad-disconnect":
+		// type DISCONNECT with non-zero reserved flags is malformed [MQTT-3.14.1-1]: a
+		// protocol error, not a DISCONNECT packet - the will is due
+		c.SendRaw([]byte{0xE0 | byte(1<<(uint(ci+e.opIndex)%4)), 0x00})
+		e.class("disconnect-with-reserved-flags")
+		how = "garbage"
 	case "garbage-sent":
 		// the offending packet was sent already; the broker is closing the connection
 		how = "garbage"
@@ -860,6 +868,14 @@ func (e *exec) doPublish(op Op) {
 	c := e.conns[ci]
 	e.msgno++
 	pl := payload(e.msgno, op.Size)
+	if prev, ok := e.lastPayload[op.Topic]; ok && op.Same && len(prev) > 0 {
+		pl = prev
+		e.class("publish-repeats-the-previous-payload")
+	}
+	if e.lastPayload == nil {
+		e.lastPayload = map[string][]byte{}
+	}
+	e.lastPayload[op.Topic] = pl
 	pp := &codec.Packet{Type: codec.PUBLISH, Topic: []byte(op.Topic), QoS: op.PQ, Retain: op.Retain, Payload: pl}
 	if op.PQ > 0 {
 		pp.PacketID = e.nextPID()
@@ -1009,8 +1025,8 @@ func (e *exec) doBurst(op Op) {
 	}
 	c := e.conns[ci]
 	q := op.PQ
-	if q > 1 {
-		q = 1
+	if q > 2 {
+		q = 2
 	}
 	type bm struct {
 		no int
@@ -1038,10 +1054,36 @@ func (e *exec) doBurst(op Op) {
 		e.dropConn(ci, false)
 		return
 	}
+	first := byte(codec.PUBACK)
+	if q == 2 {
+		first = codec.PUBREC
+	}
 	for _, id := range pids {
-		if _, err := c.Take(func(p *codec.Packet) bool { return p.Type == codec.PUBACK && p.PacketID == id }, wire.DefaultWait); err != nil {
-			e.report(dAck, "-", "client %d: PUBLISH id %d of a burst was not answered by PUBACK (%v)", ci, id, err)
+		if _, err := c.Take(func(p *codec.Packet) bool { return p.Type == first && p.PacketID == id }, wire.DefaultWait); err != nil {
+			e.report(dAck, "-", "client %d: PUBLISH id %d of a burst was not answered by %s (%v)", ci, id, codec.TypeName(first), err)
 			return
+		}
+	}
+	if q == 2 {
+		// all exchanges are open at once; now the releases, pipelined as well
+		var rel []byte
+		for _, id := range pids {
+			rel = append(rel, codec.Encode(&codec.Packet{Type: codec.PUBREL, PacketID: id})...)
+		}
+		if err := c.SendRaw(rel); err != nil {
+			e.report(dLive, "-", "client %d: the PUBRELs of a burst could not be written: %v", ci, err)
+			e.dropConn(ci, false)
+			return
+		}
+		for _, id := range pids {
+			if _, err := c.Take(func(p *codec.Packet) bool { return p.Type == codec.PUBCOMP && p.PacketID == id }, wire.DefaultWait); err != nil {
+				e.report(dAck, "-", "client %d: PUBREL id %d of a burst was not answered by PUBCOMP (%v)", ci, id, err)
+				return
+			}
+		}
+		e.class("pipelined-qos2-burst")
+		if len(pids) > 16 {
+			e.class("qos2-burst>16-exchanges-open")
 		}
 	}
 	e.class("pipelined-burst")
@@ -1215,7 +1257,7 @@ func runPlan(p Plan, known func(string) bool) outcome {
 			e.doUnsubscribe(op)
 		case "pub":
 			e.doPublish(op)
-		case "disconnect", "close", "garbage", "disconnect-close", "requests-disconnect-close":
+		case "disconnect", "close", "garbage", "disconnect-close", "requests-disconnect-close", "bad-disconnect":
 			if e.conns[op.C] != nil {
 				e.doEnd(op.C, op.K)
 			}
